@@ -873,7 +873,10 @@ class TorConfig:
                     values = defaults.get(real_name, [])
                     if not isinstance(values, list):
                         values = [values]
-                if parser is not None:
+                if isinstance(parser, CommaList):
+                    # Tor reports a comma-separated list as one value
+                    values = [x for v in values for x in parser.parse(v)]
+                elif parser is not None:
                     values = parser.parse(list(values))
                 self.config[real_name] = _ListWrapper(
                     list(values), functools.partial(self.mark_unsaved, real_name))
@@ -1131,6 +1134,9 @@ class TorConfig:
                     parsed = defaults.get(rn, [])
                     if not isinstance(parsed, list):
                         parsed = [parsed]
+                    if isinstance(inst, CommaList):
+                        # the default of a comma-separated list is one value
+                        parsed = [x for v in parsed for x in inst.parse(v)]
                 self.config[rn] = _ListWrapper(
                     parsed, functools.partial(self.mark_unsaved, rn))
 
